@@ -217,3 +217,69 @@ V("c03-directive-rebinds", "C03", "fire", "C03.R3",
 V("c03-elif-reorder-equiv", "C03", "silent", None,
   (CF, '            if line[:1] in ("", "#"):\n                # blank line or comment\n                pass\n',
        '            if not line or line[0] == "#":\n                pass\n'))
+
+# ---------------------------------------------------------------- C07
+CM = "src/ZConfig/cmdline.py"
+V("c07-unfix-position-order", "C07", "fire", "C07.R2",
+  (CM, "                url, lineno, colno = pos\n"
+       "                ZConfig.matcher.BaseMatcher.addValue(\n"
+       "                    self, key, val, (lineno, colno, url))",
+       "                ZConfig.matcher.BaseMatcher.addValue(\n"
+       "                    self, key, val, pos)"))
+V("c07-unfix-include-guard", "C07", "fire", "C07.R3",
+  (LD, "        if url in self._open_urls:\n"
+       "            raise ZConfig.ConfigurationError(\n"
+       "                \"recursive %include of \" + url, url)\n", ""))
+V("c07-unfix-urlopen-valueerror", "C07", "fire", "C07.R1",
+  (LD, "            except ValueError as e:\n"
+       "                # urllib reports malformed URLs (for example an unbalanced\n"
+       "                # '[' in the host part) with ValueError\n"
+       "                self._raise_open_error(url, str(e))\n", ""))
+V("c07-unfix-package-import", "C07", "fire", "C07.R1",
+  (LD, "    try:\n        __import__(package)\n    except ImportError as e:\n"
+       "        raise ZConfig.SchemaResourceError(\n"
+       "            f\"could not load package {package}: {str(e)}\",\n"
+       "            filename=path,\n            package=package)\n"
+       "    pkg = sys.modules[package]\n    if not hasattr",
+       "    __import__(package)\n    pkg = sys.modules[package]\n    if not hasattr"))
+V("c07-unfix-keytype-wrap", "C07", "fire", "C07.R1",
+  (CM, "            try:\n                name = sectiontype.keytype(optpath[0])\n"
+       "            except ValueError as e:\n"
+       "                url, lineno, colno = pos\n"
+       "                raise ZConfig.DataConversionError(\n"
+       "                    e, optpath[0], (lineno, colno, url))\n",
+       "            name = sectiontype.keytype(optpath[0])\n"))
+V("c07-raise-keyerror", "C07", "fire", "C07.R1",
+  ("src/ZConfig/matcher.py",
+   "                raise ZConfig.ConfigurationError(\n"
+   "                    repr(key) + \" is not a known key name\")",
+   "                raise KeyError(\n"
+   "                    repr(key) + \" is not a known key name\")"))
+V("c07-narrow-handler", "C07", "fire", "C07.R1",
+  ("src/ZConfig/info.py",
+   "        try:\n            return datatype(self.value)\n        except ValueError as e:",
+   "        try:\n            return datatype(self.value)\n        except UnicodeError as e:"))
+V("c07-line-minus1", "C07", "fire", "C07.R4",
+  (CF, 'if line[:1] in ("", "#"):', 'if line == "#" or line[-1] == "#":'))
+V("c07-validator-narrow", "C07", "fire", "C07.R7",
+  ("src/ZConfig/validator.py", "        except ZConfig.ConfigurationError as e:",
+   "        except ZConfig.ConfigurationSyntaxError as e:"))
+V("c07-split-unguarded", "C07", "fire", "C07.R8",
+  (CM, "        if \"=\" not in spec:\n            e = ZConfig.ConfigurationSyntaxError(\n"
+       "                \"invalid configuration specifier\", *pos)\n"
+       "            e.specifier = spec\n            raise e\n", ""))
+V("c07-new-cfgerror-subclass-ok", "C07", "silent", None,
+  ("src/ZConfig/matcher.py",
+   "                raise ZConfig.ConfigurationError(\n"
+   "                    repr(key) + \" is not a known key name\")",
+   "                raise ZConfig.ConfigurationSyntaxError(\n"
+   "                    repr(key) + \" is not a known key name\", None, -1)"))
+V("c07-try-moved-outward-ok", "C07", "silent", None,
+  (CM, "        try:\n            realkey = self.type.keytype(key)\n"
+       "        except ValueError as e:\n"
+       "            raise ZConfig.DataConversionError(e, key, position)\n\n"
+       "        if realkey in self.optionbag:\n            return\n",
+       "        try:\n            realkey = self.type.keytype(key)\n"
+       "            if realkey in self.optionbag:\n                return\n"
+       "        except ValueError as e:\n"
+       "            raise ZConfig.DataConversionError(e, key, position)\n"))
